@@ -7,14 +7,18 @@ from typing import Callable, Iterable, Iterator
 from . import cfg as cfgmod
 from .model import AnchorError, FuncInfo, norm, walk_no_nested, attr_chain, parent_map
 
-_CFG_CACHE: dict[int, cfgmod.CFG] = {}
+_CFG_CACHE: dict[int, tuple] = {}
 
 
 def cfg_of(f: FuncInfo) -> cfgmod.CFG:
+    # keyed by id(node) but the node itself is kept and compared: an id can be reused once another Program (the audit
+    # builds several per process) has been collected
     k = id(f.node)
-    if k not in _CFG_CACHE:
-        _CFG_CACHE[k] = cfgmod.build(f.node)
-    return _CFG_CACHE[k]
+    hit = _CFG_CACHE.get(k)
+    if hit is None or hit[0] is not f.node:
+        hit = (f.node, cfgmod.build(f.node))
+        _CFG_CACHE[k] = hit
+    return hit[1]
 
 
 def self_name(f: FuncInfo) -> str:
@@ -116,15 +120,17 @@ def _flatten_targets(t: ast.AST) -> Iterator[ast.AST]:
         yield t
 
 
-_LSD_CACHE: dict[int, dict] = {}
+_LSD_CACHE: dict[int, tuple] = {}
 
 
 def local_single_defs(f: FuncInfo) -> dict[str, ast.AST]:
     """Locals assigned exactly once by a plain `name = expr` (for expanding boolean temporaries)."""
     k = id(f.node)
-    if k not in _LSD_CACHE:
-        _LSD_CACHE[k] = _local_single_defs(f)
-    return _LSD_CACHE[k]
+    hit = _LSD_CACHE.get(k)
+    if hit is None or hit[0] is not f.node:
+        hit = (f.node, _local_single_defs(f))
+        _LSD_CACHE[k] = hit
+    return hit[1]
 
 
 def _local_single_defs(f: FuncInfo) -> dict[str, ast.AST]:
